@@ -133,6 +133,10 @@ def run(ctx):
                  sample={"frames": [f.desc() for f in frames], "api": api, "impl": impl[:200]} if len(ctx.samples) < 6 and len(frames) > 3 else None)
         inp = {"op": line if len(line) < 300 else line[:300] + "...", "frames": [f.desc() for f in frames], "api": api}
         timeline_check(ctx, inp, frames, sock, key)
+        internal = [o for o in rx.results(impl) if o.startswith("X:INTERNAL")]
+        if internal:
+            ctx.violate("each-ping-answered", "receive-call-raises-" + internal[0][2:], inp, "a value or a documented exception", impl[:200],
+                        size=len(frames))
 
 
     # the ping arrives in pieces with receive timeouts in between (one, two, or three interruptions, also inside the same
